@@ -52,8 +52,10 @@ Definition schema (f : format) : list (Z * ctype) :=
              (9, TStr); (10, TStr); (11, TRest)]
   | Fgfa => [(1, TSid); (2, TStr)]
   | Fvcf | Fvcfgt | Fvcfph | Fvcfhap => vcf_cols
-  | Ffastq => [(0, TSid); (1, TStr); (3, TQual)]
-  | Ffasta2 | Ffasta => [(0, TSid); (1, TStr)]
+  (* names of FASTQ / FASTA entries become a string array through string_array(ragged text), which (since /repo
+     b1580f3, 3ac7cac) accepts a column of only-empty names; the fixed-width matrix of get_padded_field (TSid) does not *)
+  | Ffastq => [(0, TStr); (1, TStr); (3, TQual)]
+  | Ffasta2 | Ffasta => [(0, TStr); (1, TStr)]
   end.
 (* byte that marks the leading header block (FileBuffer.COMMENT); 0 = the format has none *)
 Definition comment_byte (f : format) : Z :=
@@ -577,7 +579,7 @@ Definition fasta_cols (file : list Z) : option (Z * list colres) :=
       let counts := map (fun d => d - 1) (diff (hdr ++ [len new_lines + 1])) in
       let headers := map (fun i => tl (nth (Z.to_nat i) lines [])) hdr in
       let seqlines := map snd (filter (fun p => negb (existsb (Z.eqb (fst p)) hdr)) (combine (arange (len lines)) lines)) in
-      Some (len hdr, [sid_col headers; Col (map CBytes (group_by counts seqlines))])
+      Some (len hdr, [Col (map CBytes headers); Col (map CBytes (group_by counts seqlines))])
   end.
 
 (* ---------- one read ---------- *)
